@@ -311,6 +311,10 @@ func apiSpecs() []*HarnessSpec {
 		og := l3Grid(p.check, []int{0, 2, 105}, p.small[:1], enc3, []int{0}, lqS)
 		og["other"] = []int{1, 2}
 		q3 = append(q3, og)
+		// ... and one is built before it
+		pg := l3Grid(p.check, []int{0, 2, 5, 105}, p.small[:1], enc3, []int{0}, lqS)
+		pg["pre"] = []int{150}
+		q3 = append(q3, pg)
 		out = append(out, &HarnessSpec{Name: "l3_api", Pkg: "trie", Property: p.prop, Witness: 1,
 			Quick:    q3,
 			Thorough: t3,
@@ -386,7 +390,7 @@ func apiSpecs() []*HarnessSpec {
 	out = append(out, &HarnessSpec{Name: "l3_api", Pkg: "trie", Property: "C05", Witness: 1,
 		Quick: []Grid{{"skel": {0, 1, 2, 4, 5, 10}, "opt": {16, 9}, "enc": {1}, "runs": {0, 2}, "check": {5}, "lq": {1, 2}},
 			{"skel": {100, 102, 104}, "opt": {16, 9}, "enc": {1}, "runs": {0}, "check": {5}, "lq": {1}},
-			{"skel": append(step(105, 150, 5), 300, 301, 310, 311, 314), "opt": {16, 9}, "enc": {1}, "runs": {0}, "check": {5}, "lq": {1}, "det": {0}}},
+			{"skel": append(step(105, 150, 5), 300, 301, 303, 304, 310, 311, 314), "opt": {16, 9, 4}, "enc": {1}, "runs": {0}, "check": {5}, "lq": {1}, "det": {0}}},
 		Thorough: []Grid{{"skel": {0, 1, 2, 3, 4, 5, 6, 7, 8, 10}, "opt": optsDistinct, "enc": {1, 2}, "runs": {0, 2}, "check": {5}, "lq": {0, 1, 2, 3, 4}}},
 		Note:     "L3: round trip and determinism on skeleton tries (short-node tables with ties in the bitmap-frequency table)"})
 	out = append(out, &HarnessSpec{Name: "l2_residue", Pkg: "trie", Property: "C05", Witness: 1,
@@ -394,6 +398,9 @@ func apiSpecs() []*HarnessSpec {
 			{"L": {1}, "na": {1}, "lensa": {1}, "opta": {16}, "nb": {2}, "lensb": {3}, "optb": {9}, "nops": {3}, "seq": {1, 4, 6, 13, 19, 24, 33, 45, 52, 57}, "lq": {1}}},
 		Thorough: []Grid{{"L": {1}, "na": {2}, "lensa": {3}, "opta": {9, 16}, "nb": {1, 2}, "lensb": {1, 3}, "optb": {16, 2}, "nops": {3}, "seq": rng(0, 63), "lq": {1, 2}}},
 		Note: "all sequences over {Unmarshal(A), Unmarshal(B), Unmarshal(empty), Reset} on one instance: final answers, message and Stat equal a fresh instance that saw only the last operation"})
+	out = append(out, &HarnessSpec{Name: "l2_residue", Pkg: "trie", Property: "C18", Witness: 1,
+		Quick: []Grid{{"L": {1}, "na": {2}, "lensa": {3}, "opta": {9}, "nb": {1}, "lensb": {1}, "optb": {16}, "nops": {2}, "seq": {1, 2, 4, 6, 8, 9, 12}, "lq": {1}}},
+		Note:  "Stat() after Unmarshal/Reset sequences on one instance (with Stat() calls in between) equals the Stat() of a fresh instance that loaded only the last stream"})
 	out = append(out, &HarnessSpec{Name: "l2_residue", Pkg: "trie", Property: "C19", Witness: 1,
 		Quick: []Grid{{"L": {1}, "na": {2}, "lensa": {3}, "opta": {9}, "nb": {1}, "lensb": {1}, "optb": {16}, "nops": {2}, "seq": {1, 4, 6, 9, 12}, "lq": {1}}},
 		Note:  "String() after Unmarshal/Reset sequences on one instance (with renderings in between) equals the rendering of a fresh instance that loaded only the last stream"})
@@ -410,7 +417,7 @@ func apiSpecs() []*HarnessSpec {
 		Quick: []Grid{{"skel": {0, 1, 8, 101, 110, 303}, "model": {0, 1}, "variant": {1}, "opt": {0}, "lq": {0}}},
 		Note:  "legacy-loaded skeletons: KeyCnt = n and Stat equal to the index built by the current code (0.5.10 layout)"})
 	out = append(out, &HarnessSpec{Name: "l3_size_rel", Pkg: "trie", Property: "C17", Witness: 1,
-		Quick:    []Grid{{"family": {0, 1, 2, 3}, "n": {64}, "plen": {1, 200, 5000}}, {"family": {5}, "n": {60}, "plen": {127, 200}}},
+		Quick:    []Grid{{"family": {0, 1, 2, 3}, "n": {64}, "plen": {1, 200, 5000}}, {"family": {5}, "n": {60}, "plen": {127, 200}}, {"family": {0, 2, 5}, "n": {3, 60}, "plen": {1}, "pre": {150, 355}}},
 		Thorough: []Grid{{"family": {0, 1, 2, 3, 5}, "n": {16, 64, 256}, "plen": {1, 64, 127, 128, 200, 5000, 16000}}},
 		Note:     "relational clause on key sets with many inner steps: a concrete family K versus P+K (|P| up to 5000): the size measure differs by <= 24 (real sizes by <= 16 on the native replays)"})
 	// ---- C07 ----
@@ -432,6 +439,7 @@ func apiSpecs() []*HarnessSpec {
 	out = append(out, &HarnessSpec{Name: "l2_nowrite", Pkg: "trie", Property: "C11", Witness: 1,
 		Quick: []Grid{{"n": {0, 1}, "L": {2}, "lens": {0, 1, 2}, "opt": {16, 9}, "enc": {1}, "loaded": {0, 1}, "lq": {1}, "api": rng(0, 6)},
 			{"n": {1, 2}, "L": {1}, "lens": rng(0, 3), "opt": {16}, "enc": {1}, "loaded": {2}, "lq": {1}, "api": {0, 1, 2, 4, 5}},
+			{"n": {1, 2}, "L": {1}, "lens": rng(0, 3), "opt": {16, 2}, "enc": {1}, "loaded": {3}, "lq": {1}, "api": {0, 1, 2, 4, 5}},
 			{"n": {2}, "L": {2}, "lens": rng(0, 8), "opt": {16, 9}, "enc": {1, 4}, "loaded": {0, 1}, "lq": {2}, "api": {0, 1, 2, 4}},
 			{"n": {2}, "L": {1}, "lens": rng(0, 3), "opt": {9}, "enc": {1}, "loaded": {0, 1}, "lq": {1}, "api": {3, 5, 6}, "alpha": {1}},
 			{"n": {1, 2}, "L": {1}, "lens": rng(0, 3), "opt": {16, 9}, "enc": {7, 2}, "loaded": {0, 1}, "lq": {1}, "api": {0, 1, 5}}},
